@@ -74,7 +74,7 @@ func genWrapPairs(c *GenCtx) {
 			[2]string{x.String(), x.String() + ".0"}, [2]string{x.String(), x.String() + ".5"})
 	}
 	exprs := []string{"a == b", "a != b", "b == a", "contains(l, b)", "contains(l, a)", "a < b", "a <= b", "a > b", "a >= b", "sort([a, b]) == sort([b, a])", "sort([b, a])[0] == min([a, b])",
-		"max([a, b]) == a", "a - b", "[a, b] == [b, a]", "{k: a} == {k: b}", "l[?@ == $.b]", "(a == b) == !(a != b)", "sort_by([{v: a}, {v: b}], &v)[0].v", "a == a", "abs(a) == abs(b)"}
+		"max([a, b]) == a", "a - b", "[a, b] == [b, a]", "{k: a} == {k: b}", "l[?@ == $.b]", "(a == b) == !(a != b)", "sort_by([{v: a}, {v: b}], &v)[0].v", "a == a", "abs(a) == abs(b)", "l[?@ < $.b]", "[a, b][?@ > `100`]", "[{v: a}, {v: b}][?v >= $.a].v"}
 	for _, pr := range pairs {
 		doc := `{"a":` + pr[0] + `,"b":` + pr[1] + `,"l":[0,` + pr[0] + `,"x"]}`
 		for _, e := range exprs {
@@ -176,4 +176,26 @@ func kindDoc(x, y string) string {
 	}
 	yk := `{"#":"f64","v":"` + sign + ay.String() + "p" + fmt.Sprint(e) + `"}`
 	return `{"a":` + xk + `,"b":` + yk + `,"l":[0,` + xk + `,"x"]}`
+}
+
+// every width / position / count from 0 to the BYTE length + 2 over homogeneous strings of each UTF-8 length class (and
+// a mixed one): anything that judges a code-point quantity from the byte length — exactly, or through a bound such as
+// bytes/3 (seeded N03: `w <= len(s)/3` means "already wide enough") — differs somewhere in that window
+func genByteWindow(c *GenCtx) {
+	classes := [][]string{{"a", "b", "c", "d", "e", "f"}, {"é", "ß", "ñ", "ü", "ø", "å"}, {"€", "한", "あ", "中", "♥", "✓"}, {"😀", "😁", "😂", "😃", "𝄞", "🜁"}, {"a", "😀", "é", "€", "😁", "b"}}
+	for _, cl := range classes {
+		for k := 1; k <= 6; k++ {
+			s := strings.Join(cl[:k], "")
+			doc := `{"s":` + c.jstr(s) + `,"last":` + c.jstr(cl[k-1]) + `,"first":` + c.jstr(cl[0]) + `}`
+			for w := 0; w <= len(s)+2; w++ {
+				ws := fmt.Sprint(w)
+				for _, e := range []string{"pad_left(s, `" + ws + "`, '-')", "pad_right(s, `" + ws + "`, 'é')", "pad_left(s, `" + ws + "`)", "pad_right(s, `" + ws + "`)",
+					"length(pad_left(s, `" + ws + "`, '😀'))", "find_first(s, last, `" + ws + "`)", "find_last(s, first, `0`, `" + ws + "`)", "find_first(s, last, `0`, `" + ws + "`)",
+					"find_last(s, last, `" + ws + "`)", "s[" + ws + ":]", "s[:" + ws + "]", "s[-" + ws + ":]", "split(s, '', `" + ws + "`)", "length(split(s, '', `" + ws + "`))",
+					"replace(s, '', '-', `" + ws + "`)", "[s][?length(@) == `" + ws + "`]", "s[" + ws + "::-1]"} {
+					c.add("byte-window", e, doc)
+				}
+			}
+		}
+	}
 }
